@@ -219,6 +219,7 @@ inductive Act where
   | replyNull
   | defer
   | ret (v : Int)
+  | replyFail (msg : List Byte)     -- a reply attempt the stream cannot take (no buffer space): `mpt_stream_reply` < 0
   deriving Repr, DecidableEq
 
 /-- `streamReply(rc, msg)`; `accept` = `mpt_stream_reply` succeeds (the stream takes the frame).
@@ -250,6 +251,11 @@ def runActs (ctx : Bool) : List Act → HRes → HRes
     | .replyNull =>
       if !ctx then runActs ctx as { h with results := h.results ++ ["noctx"] } else
       let r := sreply h.s none true
+      runActs ctx as { h with s := r.2.1, results := h.results ++ [if r.1 < 0 then "refused" else "ok"],
+                              frames := h.frames ++ r.2.2.toList }
+    | .replyFail m =>
+      if !ctx then runActs ctx as { h with results := h.results ++ ["noctx"] } else
+      let r := sreply h.s (some m) false
       runActs ctx as { h with s := r.2.1, results := h.results ++ [if r.1 < 0 then "refused" else "ok"],
                               frames := h.frames ++ r.2.2.toList }
 
